@@ -46,7 +46,10 @@
 (* MinimumActivationDuration has passed since the level was last at or     *)
 (* above DeactivationLevel.  The ideal Recalc suppresses exactly that      *)
 (* switch-off; with Faithful = TRUE the code's successor is in the graph   *)
-(* too, labelled dev.                                                      *)
+(* too, labelled dev.  Where a reload falls into a hold the statement does *)
+(* not say whether the old deadline (D, the code) or the last at-or-above  *)
+(* instant with the new duration (I) governs; Recalc allows both answers   *)
+(* whenever neither is early, so a repair along (I) conforms as well.      *)
 (***************************************************************************)
 EXTENDS Integers, FiniteSets, TLC, Json
 
@@ -61,9 +64,12 @@ CONSTANTS Peers,        \* set of strings: the other nodes
           AdvSteps,     \* clock advances, in ticks
           HoldStrict, ExpiryClosed, Faithful
 
-\* threshold sets for the .cfg files (a cfg cannot write tuples): Thresholds <- ThOne
-ThOne == {<<80, 50>>}
-ThTwo == {<<80, 50>>, <<90, 75>>}
+\* threshold sets for the .cfg files (a cfg cannot write tuples): Thresholds <- ThOne.
+\* The values coincide with levels the bounded inputs produce, so that both
+\* boundaries are hit exactly: 40 = a single report of 40, 76 = RMS{40, 100},
+\* 100 = a report of 100; RMS{40, 40, 100} = 66 lies strictly between 40 and 76.
+ThOne == {<<76, 40>>}
+ThTwo == {<<76, 40>>, <<100, 76>>}
 
 ASSUME /\ \A th \in Thresholds : th[1] > th[2] /\ th[1] \in 0..100 /\ th[2] \in 0..100
        /\ LocalLevels \subseteq 0..100 /\ PeerLevels \subseteq 0..100
@@ -144,24 +150,32 @@ Advance(d) ==
   /\ act' = [name |-> "Advance", d |-> d]
 
 Recalc ==
-  LET lv     == Overall
-      \* the three ifs of the Monitor case, in order
-      on1    == stressed \/ lv >= actLvl
-      push   == mode = "monitor" /\ on1 /\ lv >= deactLvl
-      rem1   == IF push THEN minDur ELSE rem
-      past   == IF HoldStrict THEN rem1 < 0 ELSE rem1 <= 0
-      codeOn == CASE mode = "never"  -> FALSE
-                  [] mode = "always" -> TRUE
-                  [] OTHER           -> on1 /\ ~(lv < deactLvl /\ past)
-      since1 == IF lv >= deactLvl THEN 0 ELSE since
+  LET lv      == Overall
+      since1  == IF lv >= deactLvl THEN 0 ELSE since
+      on1     == stressed \/ lv >= actLvl
+      \* (D) the code: the three ifs of the Monitor case, in order, on a stored deadline
+      push    == mode = "monitor" /\ on1 /\ lv >= deactLvl
+      rem1    == IF push THEN minDur ELSE rem
+      past    == IF HoldStrict THEN rem1 < 0 ELSE rem1 <= 0
+      codeOn  == CASE mode = "never"  -> FALSE
+                   [] mode = "always" -> TRUE
+                   [] OTHER           -> on1 /\ ~(lv < deactLvl /\ past)
+      \* (I) the same switch deciding on the instant the level was last at or
+      \* above DeactivationLevel and the MinimumActivationDuration in force now
+      held    == IF HoldStrict THEN since1 > minDur ELSE since1 >= minDur
+      instOn  == CASE mode = "never"  -> FALSE
+                   [] mode = "always" -> TRUE
+                   [] OTHER           -> on1 /\ ~(lv < deactLvl /\ held)
       \* the switch-off the hold rule forbids
-      early  == mode = "monitor" /\ stressed /\ ~codeOn /\ since1 < minDur
-      ideal  == IF early THEN TRUE ELSE codeOn
+      early   == mode = "monitor" /\ stressed /\ ~codeOn /\ since1 < minDur
+      \* (D) and (I) agree unless a reload fell into a hold; the statement then
+      \* permits either answer, except (D)'s early switch-off
+      Allowed == {IF early THEN TRUE ELSE codeOn, instOn}
   IN /\ level' = lv
      /\ rem' = rem1
      /\ since' = since1
      /\ UNCHANGED <<mode, actLvl, deactLvl, minDur, local, reports>>
-     /\ \/ /\ stressed' = ideal
+     /\ \/ /\ stressed' \in Allowed
            /\ act' = [name |-> "Recalc"]
         \/ /\ Faithful /\ early
            /\ stressed' = codeOn
@@ -220,10 +234,10 @@ ModePins ==
   [][act'.name = "Recalc" => /\ (mode = "never" => ~stressed')
                               /\ (mode = "always" => stressed')]_vars
 
-\* edge dump for the conformance replay
-St == [mode |-> mode, actLvl |-> actLvl, deactLvl |-> deactLvl, minDur |-> minDur,
-       local |-> local, reports |-> reports, level |-> level, stressed |-> stressed,
-       rem |-> rem, since |-> since, timeout |-> Timeout]
-Dump == PrintT(ToJson([fs |-> St, fa |-> act.name, act |-> act', ts |-> St', fabs |-> Abs, tabs |-> Abs']))
+\* edge dump for the conformance replay (compact form: full state = Abs + Hid)
+Hid == [mode |-> mode, actLvl |-> actLvl, deactLvl |-> deactLvl, minDur |-> minDur,
+        local |-> local, reports |-> reports, rem |-> rem, since |-> since]
+ASSUME PrintT(ToJson([params |-> [timeout |-> Timeout]]))
+Dump == PrintT(ToJson([fa |-> act.name, act |-> act', fabs |-> Abs, fhid |-> Hid, tabs |-> Abs', thid |-> Hid']))
 View == <<mode, actLvl, deactLvl, minDur, local, reports, level, stressed, rem, since>>
 =============================================================================
